@@ -306,7 +306,7 @@ class CFG(object):
             return True
         return a in self._dom[b]
 
-    def reachable(self, src, avoid=(), skip_labels=(), through_effect=None):
+    def reachable(self, src, avoid=(), skip_labels=(), through_effect=None, edge_ok=None):
         """set of node ids reachable from src (including src) avoiding nodes in `avoid`.
         through_effect: optional set of node ids whose *normal* out-edges are blocked
         (their 'exc' edges still count): used for 'reach X without executing def D'."""
@@ -323,17 +323,19 @@ class CFG(object):
                     continue
                 if through_effect is not None and n in through_effect and label not in ("exc",):
                     continue
+                if edge_ok is not None and not edge_ok(self.nodes[n], self.nodes[d], label):
+                    continue
                 if d not in seen and d not in avoid:
                     stack.append(d)
         return seen
 
-    def must_pass(self, src, dst, via, skip_labels=()):
+    def must_pass(self, src, dst, via, skip_labels=(), edge_ok=None):
         """True iff every path src -> dst passes through a node in `via` (ids).
         (vacuously True when dst is unreachable from src)"""
         via = set(via)
         if src in via or dst in via:
             return True
-        return dst not in self.reachable(src, avoid=via, skip_labels=skip_labels)
+        return dst not in self.reachable(src, avoid=via, skip_labels=skip_labels, edge_ok=edge_ok)
 
     def edge_dominates(self, test_id, label, b):
         """every path entry -> b goes through edge (test_id --label-->)"""
